@@ -329,7 +329,8 @@ def _over_seq(I, node, st, seq):
     """for x in <seq>: body  ==  seq with every leaf replaced by body's output for that leaf."""
     ctx = I.ctx
     list_deltas = {}
-    if isinstance(seq, Gen) and any(isinstance(n, (ast.Raise, ast.Return, ast.Break)) for n in ast.walk(ast.Module(body=node.body, type_ignores=[]))):
+    x_exits = []
+    if isinstance(seq, Gen) and not ctx.config.get("x_mode") and any(isinstance(n, (ast.Raise, ast.Return, ast.Break)) for n in ast.walk(ast.Module(body=node.body, type_ignores=[]))):
         r = _first_exit(I, node, st, seq)
         if r is not None:
             return r
@@ -354,6 +355,10 @@ def _over_seq(I, node, st, seq):
                 raise OutOfSubset("exception while binding loop target over a sequence")
             for s2, ctl in I.exec_block(node.body, s1):
                 if ctl[0] not in ("next", "continue"):
+                    if ctx.config.get("x_mode"):
+                        # exit-path analysis: an exit from some iteration; only ghost state matters
+                        x_exits.append((s2, ctl))
+                        continue
                     raise OutOfSubset("early exit (%s) from a loop over a generator result in %s" % (ctl[0], st.unit.key))
                 d = _delta(I, st, s2, base_pc, base_out, ctl[0])
                 for t in _target_names(node.target):
@@ -413,9 +418,10 @@ def _over_seq(I, node, st, seq):
             s.heap[k] = dict(old, parts=old["parts"] + (v,))
     for t in _target_names(node.target):
         s.env[t] = Undefined(t)
-    if node.orelse:
-        return I.exec_block(node.orelse, s)
-    return [(s, ("next", None))]
+    res = I.exec_block(node.orelse, s) if node.orelse else [(s, ("next", None))]
+    for s2, ctl in x_exits:
+        res.append((s2, ("next", None) if ctl[0] == "break" else ctl))
+    return res
 
 
 def _emptiable(sq):
